@@ -46,7 +46,7 @@ SETS = {
         "Namespace.j2": "\n" + _NS + "\n\n\n",
     },
     "crlf": {
-        "Any.j2": "line one  \r\n\r\n\r\n{{ T.full_name }}\t\r\nlast {{ 'x\\r\\ny  \\r\\n' }}\r\n\r\n",
+        "Any.j2": "line one  \r\n\r\n\r\n{{ T.full_name }}\t\r\nlast {{ 'x\\r\\ny  \\r\\n' }}\r\n\r\nexo\u2028tic \x85\n\x1c\n\u2029\n\nv\x0bf\x0c {{ 'lone\\rcr \\r' }}\n",
         "Namespace.j2": _NS,
     },
 }  # type: typing.Dict[str, typing.Dict[str, str]]
